@@ -438,6 +438,8 @@ func runC04(c *Ctx) {
 	c.floor("C04.5", "return templates", nR, 4)
 
 	c04Renderer(c, p)
+	ruleImportNamesFromPool(c, "C04.11")
+	ruleParamsNamedFirst(c, "C04.12")
 
 	// C04.9 the checked-in outputs type-check (the loader fails closed on any type error in module packages)
 	files, _ := coFiles(L)
@@ -716,6 +718,13 @@ func c04Renderer(c *Ctx, p *packages.Package) {
 			continue
 		}
 		for _, req := range fidelityTable[k] {
+			if k == "Interface" {
+				// all methods: either the flattened method set, or explicit methods together with the embedded types
+				acc := r.perKind[k]
+				okI := hasAny(acc, "Methods|Method|NumMethods") || (hasAny(acc, "ExplicitMethod|ExplicitMethods|NumExplicitMethods") && hasAny(acc, "EmbeddedType|EmbeddedTypes|Embeddeds|NumEmbeddeds"))
+				c.check(okI, "C04.6", "createASTTypeExpr:Interface:Methods", L.pos(r.fn.Pos()), "the renderer prints every method of an interface type (embedded interfaces included)", fmt.Sprintf("accessors used in the case: %v", sortedKeys(acc)))
+				continue
+			}
 			c.check(hasAny(r.perKind[k], req), "C04.6", "createASTTypeExpr:"+k+":"+strings.Split(req, "|")[0], L.pos(r.fn.Pos()),
 				fmt.Sprintf("the renderer consults %s of *types.%s (part of the type's identity)", req, k), fmt.Sprintf("accessors used in the case: %v", sortedKeys(r.perKind[k])))
 		}
